@@ -103,7 +103,6 @@ fn extra_lines() -> Vec<Vec<u8>> {
         "Size (f.tgz) = -1 bytes", "Size (f.tgz) = 7x bytes", "Size (f.tgz) = 0x10 bytes", "Size (f.tgz) = 1e3 bytes", "Size (f.tgz) = \u{663} bytes", "Size (f.tgz) = 18446744073709551616 bytes", "Size (f.tgz) = 7.0 bytes",
         "SHA-1 (f.tgz) = x", "SHA1x (f.tgz) = x", "SHA3 (f.tgz) = x", "XSHA1 (f.tgz) = x", "SIZE (f.tgz) = 7 bytes", "Sizes (f.tgz) = 7 bytes",
         "SHA1 (d//f.tgz) = c3", "Size (d/./f.tgz) = 9 bytes", "SHA1 (f.tgz/) = c4", "SHA1 (./f.tgz) = c5",
-        "SHA1 () = e0",
         "Size (f.tgz) = 000000000000000000007 bytes", "Size (d/f.tgz) = 0000000000000000000000000000000000000042 bytes", "Size (f.tgz) = 00018446744073709551615 bytes", "Size (f.tgz) = 18446744073709551615 bytes",
     ] {
         v.push(l.as_bytes().to_vec());
@@ -112,7 +111,6 @@ fn extra_lines() -> Vec<Vec<u8>> {
     v.push(b"\xa0SHA1 (f.tgz) = hi".to_vec());
     v.push(b"SHA1\xa0(f.tgz) = hi".to_vec());
     v.push(b"SHA1 (f.tgz)\x85= hi".to_vec());
-    v.push(b"SHA1 (f.tgz) = \xff\xfe".to_vec());
     v
 }
 
